@@ -19,8 +19,8 @@ type c18 struct{ base }
 
 func init() {
 	core.Register(c18{base{id: "C18", level: "exploration", quickB: 16, thoroughB: 32,
-		rule: "callbacks retain the library's own strings and slices without copying (query texts, parameter values, client parameter keys/values, password) next to what the harness knows it sent; every retained item is re-compared at every later callback and at connection end; old portals are executed late so parameters held by the library's portal cache are re-read. Histories of 5-200 later messages with sizes around the 4 KiB allocation granule (1, 100, 4000-4200, 8191-8193), around L (L-1, L, oversized L+1..3L skipped), COPY streams of many chunks, Parse messages with unread parameter-OID tails, for L in {4096, 8192, 65536}; built with checkptr (unsafe string views). Non-trivial = at least 3 retained items survive at least 5 later messages including a granule-crossing or oversized one; distinct = (L, message-kind/size-class sequence).",
-		need:        []string{"retained_items", "recomparisons", "late_portal_executions", "oversized_skipped", "copy_chunks", "granule_crossings"},
+		rule: "callbacks retain the library's own strings and slices without copying (query texts, parameter values, client parameter keys/values, password) next to what the harness knows it sent; every retained item is re-compared at every later callback, at connection end, and again after each of the next six connections (other limits, other traffic) was served; old portals are executed late so parameters held by the library's portal cache are re-read. Histories of 5-200 later messages with sizes around the 4 KiB allocation granule (1, 100, 4000-4200, 8191-8193), around L (L-1, L, oversized L+1..3L skipped), COPY streams of many chunks, Parse messages with unread parameter-OID tails, for L in {4096, 8192, 65536}; built with checkptr (unsafe string views). Non-trivial = at least 3 retained items survive at least 5 later messages including a granule-crossing or oversized one; distinct = (L, message-kind/size-class sequence).",
+		need:        []string{"retained_items", "recomparisons", "late_portal_executions", "oversized_skipped", "copy_chunks", "granule_crossings", "recomparisons_after_connection_end"},
 		assumptions: append([]string{"the harness's own copies are taken from what it sent, not from the callback arguments"}, commonAssumptions...)}})
 }
 
@@ -144,6 +144,10 @@ func c18parse(ctx context.Context, query string) (wire.PreparedStatements, error
 	return wire.Prepared(wire.NewStatement(fn, wire.WithColumns(cols))), nil
 }
 
+// c18old keeps the retention lists of finished connections: "for as long as the holder retains
+// them" does not end with the connection that delivered the data.
+var c18old []*c18conn
+
 func (ch c18) Run(c *core.Ctx) {
 	n := 190
 	if c.Tier == "thorough" {
@@ -165,6 +169,18 @@ func (ch c18) Run(c *core.Ctx) {
 		rng := core.NewRng(c.Seed, "C18", c.Batch, i)
 		L := core.Pick(rng, []int{4096, 8192, 65536})
 		ch.runCase(c, envs[L], L, rng, i)
+		// re-compare what earlier, finished connections handed out
+		for k, old := range c18old {
+			before := old.bad
+			old.recheck("after its connection ended and later connections were served")
+			c.Count("recomparisons_after_connection_end", int64(len(old.items)))
+			if old.bad != "" && before == "" {
+				c.Violate("overwritten", "retained data changed after its connection ended: "+trim(old.bad, 40), old.bad, map[string]any{"connections_later": len(c18old) - k})
+			}
+		}
+		if len(c18old) > 6 {
+			c18old = c18old[len(c18old)-6:]
+		}
 	}
 }
 
@@ -298,6 +314,12 @@ func (ch c18) runCase(c *core.Ctx, env *hs.Env, L int, rng *core.Rng, idx int) {
 	}
 	cl.Finish()
 	st.recheck("at connection end")
+	if st.bad == "" && len(st.items) > 0 {
+		if len(st.items) > 60 {
+			st.items = st.items[:60]
+		}
+		c18old = append(c18old, st)
+	}
 	c.Count("retained_items", int64(len(st.items)))
 	c.Count("recomparisons", int64(st.rechecks))
 	c.Count("late_portal_executions", int64(st.lateExec))
